@@ -339,6 +339,69 @@ def gen_spec(rng, cfg):
     return s
 
 
+def fix_stable(n):
+    return not (n[2].isdigit() and n[4].isdigit() and n[3] == ' ')
+
+
+def gen_edits(rng, spec):
+    """edits made through the public API between construction and write (cfg['edits'])"""
+    ed = []
+    rocks = [r['name'] for r in spec.get('rocks', [])]
+    blocks = [b['name'] for b in spec.get('blocks', [])]
+    cons = [list(c['block']) for c in spec.get('connections', [])]
+    gens = spec.get('generators', [])
+    want = lambda p: rng.random() < p
+    # --- rock types
+    if len(rocks) >= 2:
+        if want(0.5):
+            old = rng.choice(rocks)
+            new = next(n for n in (gen_rock_name(rng) for _ in range(100)) if n not in rocks)
+            ed.append(['rename_rock', old, new]); rocks[rocks.index(old)] = new
+        if want(0.3):
+            n = rng.choice(rocks); ed.append(['readd_rock', n]); rocks.remove(n); rocks.append(n)
+        if want(0.6): ed.append(['sort_rocks'])
+        # (with no block at all clean_rocktypes empties ROCKS: extra precision for a section without content is outside the property)
+        if want(0.2) and not spec.get('indom') and blocks: ed.append(['clean_rocks'])
+    # --- blocks
+    if len(blocks) >= 2:
+        connected = set(x for c in cons for x in c)
+        if want(0.3):
+            free = [b for b in blocks if b not in connected]
+            if free:
+                n = rng.choice(free); ed.append(['readd_block', n]); blocks.remove(n); blocks.append(n)
+        if want(0.3):
+            k = rng.sample(blocks, rng.randint(1, 2)); ed.append(['demote_block', k])
+            for n in k: blocks.remove(n); blocks.append(n)
+        if want(0.6):
+            perm = list(blocks); rng.shuffle(perm); ed.append(['reorder_blocks', perm]); blocks = perm
+    if len(cons) >= 2 and want(0.6):
+        bare = set(tuple(x) for x in spec.get('history_connection', []) if x[0] != 'obj')
+        perm = [list(c) for c in cons]; rng.shuffle(perm)
+        perm = [(c[::-1] if (want(0.3) and tuple(c) not in bare and c[::-1] not in cons) else c) for c in perm]
+        ed.append(['reorder_conns', perm])
+    if blocks and want(0.3):
+        taken = set(norm_name(b) for b in blocks) | set(norm_name(g['block']) for g in gens)
+        mp = {}
+        for old in rng.sample(blocks, min(len(blocks), rng.randint(1, 3))):
+            if not fix_stable(old): continue
+            new = next((n for n in (gen_block_name(rng) for _ in range(100)) if norm_name(n) not in taken and fix_stable(n)
+                        and norm_name(n) == n), None)
+            if new is None: continue
+            taken.add(norm_name(new)); mp[old] = new
+        if mp: ed.append(['rename_blocks', mp])
+        ren = lambda n: mp.get(n, n)
+    else:
+        ren = lambda n: n
+    # --- generators (keys after a possible block renaming)
+    keys = [(ren(g['block']), g['name']) for g in gens]
+    if gens and want(0.4):
+        k = rng.choice(keys)
+        if keys.count(k) == 1: ed.append(['readd_gen', list(k)])
+    if gens and want(0.3):
+        k = rng.choice(keys); ed.append(['dup_gen', list(k), gen_real(rng, 3)])
+    return ed
+
+
 def fix_cfg(cfg, spec):
     """an extra-precision request only names sections that have content (extra precision for an absent
     section is not a configuration of the property)"""
@@ -364,4 +427,5 @@ def gen_cfg(rng):
             if 'CONNE' in xp and 'ELEME' not in xp: xp.insert(xp.index('CONNE'), 'ELEME')
             if 'ELEME' in xp and 'ROCKS' not in xp: xp.insert(0, 'ROCKS')
         echo = rng.random() < 0.5
-    return {'flavour': flavour, 'mesh': mesh, 'xp': xp, 'echo': echo, 'permute': rng.random() < 0.35, 'pseed': rng.randint(0, 10 ** 9)}
+    return {'flavour': flavour, 'mesh': mesh, 'xp': xp, 'echo': echo, 'permute': rng.random() < 0.35, 'pseed': rng.randint(0, 10 ** 9),
+            'edit': rng.random() < 0.5}
